@@ -1,9 +1,10 @@
 use std::collections::{HashMap, HashSet};
 
-use combine::{Parser, choice, many1, optional};
+use combine::{Parser, attempt, choice, many1, optional};
 use redis_protocol::resp3;
 use redis_protocol::resp3::types::BytesFrame;
 use sierradb::bucket::PartitionId;
+use sierradb::id::uuid_to_partition_hash;
 use sierradb_cluster::subscription::{FromSequences, Subscribe, SubscriptionMatcher};
 use tokio::io::{self, AsyncWriteExt};
 use tokio::sync::{mpsc, watch};
@@ -13,7 +14,7 @@ use uuid::Uuid;
 use crate::error::AsRedisError;
 use crate::parser::{
     FrameStream, all_selector, keyword, number_u64, number_u64_min, partition_id,
-    partition_id_sequence, partition_ids,
+    partition_id_sequence, partition_ids, partition_key,
 };
 use crate::request::{HandleRequest, number, simple_str};
 use crate::server::Conn;
@@ -25,8 +26,8 @@ use crate::server::Conn;
 /// # All partitions
 /// EPSUB * [FROM LATEST | FROM <sequence> | FROM MAP <p1>=<s1> <p2>=<s2>... [DEFAULT <seq>]] [WINDOW <size>]
 ///
-/// # Single partition
-/// EPSUB <partition_id> [FROM <sequence>] [WINDOW <size>]
+/// # Single partition (partition ID 0-65535 or UUID key)
+/// EPSUB <partition> [FROM <sequence>] [WINDOW <size>]
 ///
 /// # Multiple partitions (ids and inclusive ranges, e.g. 0-127 or 0,1,5-9)
 /// EPSUB <p1>,<p2>,<p3> [FROM LATEST | FROM <sequence> | FROM MAP <p1>=<s1> <p2>=<s2>... [DEFAULT <seq>]] [WINDOW <size>]
@@ -47,6 +48,9 @@ use crate::server::Conn;
 pub struct EPSub {
     pub matcher: SubscriptionMatcher,
     pub window_size: Option<u64>,
+    /// Set when the single partition was given by key: the matcher's partition id is
+    /// resolved from it once the partition count is known (see `handle_request`).
+    pub partition_key: Option<Uuid>,
 }
 
 impl EPSub {
@@ -57,6 +61,10 @@ impl EPSub {
             optional(window()),
         )
             .map(|(selector, from_sequences, window_size)| {
+                let partition_key = match selector {
+                    Selector::PartitionKey(key) => Some(key),
+                    _ => None,
+                };
                 let matcher = match selector {
                     Selector::All => SubscriptionMatcher::AllPartitions {
                         from_sequences: from_sequences.unwrap_or(FromSequences::Latest),
@@ -88,10 +96,21 @@ impl EPSub {
                         partition_ids,
                         from_sequences: from_sequences.unwrap_or(FromSequences::Latest),
                     },
+                    // The partition id is filled in by handle_request. A per-partition map
+                    // can not be consulted before the id is known; only its default applies.
+                    Selector::PartitionKey(_) => SubscriptionMatcher::Partition {
+                        partition_id: 0,
+                        from_sequence: match from_sequences {
+                            Some(FromSequences::AllPartitions(sequence)) => Some(sequence),
+                            Some(FromSequences::Partitions { fallback, .. }) => fallback,
+                            Some(FromSequences::Latest) | None => None,
+                        },
+                    },
                 };
                 EPSub {
                     matcher,
                     window_size,
+                    partition_key,
                 }
             })
     }
@@ -100,6 +119,7 @@ impl EPSub {
 enum Selector {
     All,
     Partition(PartitionId),
+    PartitionKey(Uuid),
     Partitions(HashSet<PartitionId>),
 }
 
@@ -107,6 +127,7 @@ impl Selector {
     fn parser<'a>() -> impl Parser<FrameStream<'a>, Output = Self> + 'a {
         choice!(
             all_selector().map(|_| Selector::All),
+            attempt(partition_key().map(Selector::PartitionKey)),
             partition_id().map(Selector::Partition),
             partition_ids().map(Selector::Partitions)
         )
@@ -152,12 +173,19 @@ impl HandleRequest for EPSub {
             }
         };
 
+        let mut matcher = self.matcher;
+        if let (Some(key), SubscriptionMatcher::Partition { partition_id, .. }) =
+            (self.partition_key, &mut matcher)
+        {
+            *partition_id = uuid_to_partition_hash(key) % conn.num_partitions;
+        }
+
         let subscription_id = Uuid::new_v4();
         let (last_ack_tx, last_ack_rx) = watch::channel(None);
         conn.cluster_ref
             .ask(Subscribe {
                 subscription_id,
-                matcher: self.matcher,
+                matcher,
                 last_ack_rx,
                 update_tx: sender,
                 window_size: self.window_size.unwrap_or(1_000),
